@@ -1440,6 +1440,8 @@ def run_case(case, ctx):
     out.sample = {'case': ctx.idx, 'cpu': g.cpu, 'case_sensitive': g.cs, 'features': sorted(g.feat),
                   'files': sorted(g.files) + sorted(g.bins), 'main_lines': src.count('\n'),
                   'status': pr.status}
+    if pr.status in ('model-error', 'flat-rejected', 'timeout'):
+        out.sets['inconclusive_case_numbers'].add(ctx.idx)
     if pr.status == 'model-error':
         out.inconc('model-error: ' + pr.detail)
         out.obs['model_errors'] += 1
